@@ -1,0 +1,71 @@
+package internal
+
+import (
+	"fmt"
+	"go/scanner"
+	"go/token"
+	"go/types"
+	"sort"
+)
+
+// usedPredeclared returns the predeclared identifiers (error, nil, new, len,
+// ...) that the generated code src refers to, sorted. An identifier that
+// follows a period is a selector and refers to nothing predeclared.
+func usedPredeclared(src []byte) []string {
+	var (
+		s    scanner.Scanner
+		fset = token.NewFileSet()
+		prev = token.ILLEGAL
+		seen = make(map[string]struct{})
+	)
+	// Generated code that does not scan is reported when the file is parsed.
+	s.Init(fset.AddFile("", fset.Base(), len(src)), src, nil /* error handler */, 0)
+	for {
+		_, tok, lit := s.Scan()
+		if tok == token.EOF {
+			break
+		}
+		if tok == token.IDENT && prev != token.PERIOD && types.Universe.Lookup(lit) != nil {
+			seen[lit] = struct{}{}
+		}
+		prev = tok
+	}
+	names := make([]string, 0, len(seen))
+	for name := range seen {
+		names = append(names, name)
+	}
+	sort.Strings(names)
+	return names
+}
+
+// hidesPredeclared returns an error if name, a predeclared identifier that
+// generated code uses, refers to something else where that code is placed:
+// at pos, or at the top level of the file if packageScope is set.
+func hidesPredeclared(
+	name string,
+	pkg *types.Package,
+	pos token.Pos,
+	packageScope bool,
+	fset *token.FileSet,
+) error {
+	if pkg == nil || !pos.IsValid() {
+		return nil
+	}
+	scope := pkg.Scope().Innermost(pos)
+	if scope == nil {
+		return nil
+	}
+	if packageScope {
+		// Up to the scope of the file, which holds its imports.
+		for scope != pkg.Scope() && scope.Parent() != nil && scope.Parent() != pkg.Scope() {
+			scope = scope.Parent()
+		}
+	}
+	_, obj := scope.LookupParent(name, pos)
+	if obj == nil || obj.Parent() == types.Universe {
+		return nil
+	}
+	return fmt.Errorf(
+		"%v: %v (declared at %v) hides the predeclared %v, which the generated code uses: rename it",
+		fset.Position(pos), name, fset.Position(obj.Pos()), name)
+}
